@@ -640,6 +640,64 @@ def eng_pushstress(ctx):
     return []
 
 
+def eng_stream_flood(ctx):
+    """99..130 StreamingPull streams open at once on one connection, then the calls they are waiting for."""
+    cases = gen.stream_flood_cases((99, 100, 101, 130) if not ctx.thorough else (99, 100, 101, 130, 257, 1001))
+    return ctx.seq("stream-flood", cases, triggers={"SO"}, monitor=M.mon_no_hang, always_monitor=True, model_free=True)
+
+
+def eng_busy_lists(ctx):
+    """List calls issued while other requests are on their way to the listed resources."""
+    cases = gen.busy_list_cases()
+    return ctx.seq("busy-lists", cases, relevant={"LS", "LTS", "LT"}, triggers={"LS", "LTS", "LT"}, monitor=M.mon_creation_order,
+                   always_monitor=True)
+
+
+def eng_many_topics(ctx):
+    """24 topics x 12 Publish calls: topic ids and per-topic counters both pass 10 and 20."""
+    cases = gen.many_topics_cases()
+    return ctx.seq("many-topics", cases, relevant={"PUB", "PULL"}, triggers={"PULL"}, monitor=M.mon_payload, always_monitor=True)
+
+
+def eng_create_vs_delete_topic(ctx):
+    """CreateSubscription racing the DeleteTopic of its topic."""
+    cases = gen.create_vs_delete_topic_cases(range(0, 10) if not ctx.thorough else range(0, 40))
+    return ctx.seq("create-vs-delete-topic", cases, triggers={"JOIN"}, monitor=M.mon_racing_namespace, always_monitor=True,
+                   model_free=True)
+
+
+def eng_abandoned_delete_during_create(ctx):
+    """A DeleteSubscription abandoned while waiting for room in the mailbox of a subscription whose attachment is
+    still on its way: it has no effect."""
+    cases = gen.abandoned_delete_during_create_cases()
+    return ctx.seq("abandoned-delete-during-create", cases, triggers={"SEQ"}, monitor=M.mon_exists_attached, always_monitor=True,
+                   model_free=True)
+
+
+def eng_registry_enum(ctx):
+    """All lifecycle sequences of one push/pull subscription name and its topic, the push registry read after each step."""
+    cases = gen.registry_enum_cases(ctx.n(4, 5))
+    out = ctx.seq("registry-enum", cases, relevant={"CS", "DS", "DT", "CT", "REG", "GS", "LTS", "LS"}, triggers={"REG"},
+                  monitor=M.mon_namespace, always_monitor=True)
+    ctx.stats["streams"]["registry-enum"]["exhaustive_depth"] = ctx.n(4, 5)
+    return out
+
+
+def eng_orphan_wait(ctx):
+    """Blocking Pulls on a subscription whose topic is gone: they wait for the nack / the expiry / their limit."""
+    cases = gen.orphan_wait_cases()
+
+    def mon2(ops, lines):
+        return M.mon_blocking_empty(ops, lines) or M.mon_wait(ops, lines)
+    return ctx.seq("orphan-wait", cases, relevant=WAIT_OPS, triggers={"JOIN"}, monitor=mon2, always_monitor=True)
+
+
+def eng_control_shape(ctx):
+    """Every shape (0..2 ack ids x 0..2 modify ids x 0..2 seconds) of a follow-up StreamingPull control message."""
+    cases = gen.control_shape_cases()
+    return ctx.seq("control-shape", cases, relevant=DATA_OPS | {"GT"}, triggers={"SS"}, monitor=M.mon_control_shape, always_monitor=True)
+
+
 def eng_topicstress(ctx):
     """OS threads creating topics at the same instant (barrier), then one Publish per topic: message ids must be
     pairwise distinct and each subscription must receive its own topic's message.  A stress search: it can only find."""
@@ -918,7 +976,7 @@ def eng_push_late(ctx):
 
 
 reg("C09", [eng_codec_pure, eng_payload, eng_data_random(M.mon_payload, {"PULL"}, streams=True, tag="data-stream-random"),
-            eng_push_late, lambda ctx: eng_topicstress(ctx)],
+            eng_push_late, lambda ctx: eng_topicstress(ctx), lambda ctx: eng_many_topics(ctx)],
     rule="codec-pure: MessageId::new on boundary and random (tid, counter) pairs; payload: binary/empty/5 kB data, "
          "non-ASCII and empty attribute keys, two subscriptions, nack and expiry redelivery, topic delete + re-create; "
          "push: the HTTP push body (base64 data incl. bytes that map to the base64 digits 62/63, attributes, id) as "
@@ -939,7 +997,8 @@ def eng_racing_namespace(ctx):
 
 
 reg("C10", [lambda ctx: eng_control_enum(ctx), eng_control_random(M.mon_namespace, {"CT", "CS"}, always=True), eng_names_echo,
-            eng_racing_namespace, lambda ctx: eng_nsstress(ctx), lambda ctx: eng_grpcstress(ctx)],
+            eng_racing_namespace, lambda ctx: eng_nsstress(ctx), lambda ctx: eng_grpcstress(ctx),
+            lambda ctx: eng_create_vs_delete_topic(ctx)],
     rule="random control-plane scripts over 2 projects x 3 topics x 4 subscriptions with deletions, re-creations, "
          "cross-project and malformed names, interleaved with data-plane calls; racing-namespace: two or three clients "
          "that each do create-then-get or delete-then-get on ONE name, started without letting the runtime settle "
@@ -959,7 +1018,7 @@ reg("C10", [lambda ctx: eng_control_enum(ctx), eng_control_random(M.mon_namespac
 reg("C11", [lambda ctx: eng_control_enum(ctx), eng_control_random(M.mon_namespace, {"DT", "DS"}, always=True),
             eng_data_random(M.mon_namespace, {"DS", "DT"}, relevant=CTL_OPS | DATA_OPS, tag="data-random", always=True),
             lambda ctx: eng_create_delete_race(ctx), lambda ctx: eng_racestress(ctx), lambda ctx: eng_abandon(ctx),
-            lambda ctx: eng_nsstress(ctx)],
+            lambda ctx: eng_nsstress(ctx), lambda ctx: eng_registry_enum(ctx)],
     rule="random scripts deleting and re-creating topics and subscriptions with publishes and pulls in between; "
          "ListTopicSubscriptions / GetSubscription / STATS after deletions. non-trivial = a successful delete",
     monitor=M.mon_namespace, title="Deletion keeps topics and subscriptions consistent with each other", design_ref="7/C11",
@@ -973,7 +1032,8 @@ reg("C11", [lambda ctx: eng_control_enum(ctx), eng_control_random(M.mon_namespac
                "hand-written and tied to the code by the replayed refutations and the racestress / burst / abandon streams "
                "(DESIGN 9). 'Keeps serving the messages it holds' after DeleteTopic is a fact of the sequential model.")
 
-reg("C13", [eng_paging_pure, eng_paging_walks, eng_control_random(M.mon_walk, {"LT", "LS", "LTS"})],
+reg("C13", [eng_paging_pure, eng_paging_walks, eng_control_random(M.mon_walk, {"LT", "LS", "LTS"}),
+            lambda ctx: eng_busy_lists(ctx)],
     rule="paging-pure: token encode/decode on boundary and random offsets, random and near-miss token strings, "
          "parse_paging and Paging on all boundary sizes; paging-walks: full token walks of the three List RPCs for the "
          "counts and sizes noted, two projects, deletions before the walk, unissued and malformed tokens. "
@@ -991,7 +1051,7 @@ def eng_cs_late(ctx):
 
 
 reg("C15", [eng_capacity, eng_data_random(M.mon_batch, {"PULL"}, streams=True, tag="data-stream-random"), eng_cs_late,
-            lambda ctx: eng_big_chain(ctx), lambda ctx: eng_boundary_counts(ctx)],
+            lambda ctx: eng_big_chain(ctx), lambda ctx: eng_boundary_counts(ctx), lambda ctx: eng_orphan_wait(ctx)],
     rule="capacity: backlog sizes around 0/1/1000 (thorough: 65535/65536/65541) x max_messages around 1, 1000, 65535, "
          "65536 multiples, i32::MAX; stream-capacity likewise for max_outstanding_messages. non-trivial = non-empty response",
     monitor=M.mon_batch, title="Pull batches respect their size limit and are empty only when allowed", design_ref="7/C15",
@@ -1003,7 +1063,8 @@ reg("C15", [eng_capacity, eng_data_random(M.mon_batch, {"PULL"}, streams=True, t
                "(C15c_*: only through its 300 s limit; an empty reply of the actor makes the consumer wait) and in the "
                "sequential model (WaitP); " + "it is exercised on the real server by the wait streams of C06.")
 
-reg("C17", [eng_malformed, eng_names_pure, eng_codec_pure, lambda ctx: eng_boundary_counts(ctx)],
+reg("C17", [eng_malformed, eng_names_pure, eng_codec_pure, lambda ctx: eng_boundary_counts(ctx),
+            lambda ctx: eng_control_shape(ctx)],
     rule="malformed: per case a valid setup, then 3-8 requests each with one malformed field (names, ack ids, tokens, "
          "integers, push endpoints, inconsistent stream control messages with the bad element at a random position), STATS "
          "after each, then a health round trip and all listings. non-trivial = the health probe succeeded",
@@ -1415,7 +1476,7 @@ reg("C06", [eng_wait_enum, eng_wait_random(M.mon_wait, {"SR", "JOIN"}), eng_canc
                "the sequential one.")
 
 reg("C12", [eng_delete_release, eng_wait_random(M.mon_release, {"DS"}), eng_burst_shapes, eng_cs,
-            lambda ctx: eng_abandon(ctx), lambda ctx: eng_grpcstress(ctx)],
+            lambda ctx: eng_abandon(ctx), lambda ctx: eng_grpcstress(ctx), lambda ctx: eng_create_delete_race(ctx)],
     rule="delete-release: per runtime seed, DeleteSubscription with two streams (request side open / closed), a blocked "
          "Pull, consumers of another subscription, and (variants) ack/nack/pull/get/publish calls started without "
          "letting the runtime settle, then every consumer observed; wait-random as for C06. non-trivial = a "
@@ -1528,7 +1589,8 @@ def eng_burst(ctx):
 
 
 
-reg("C16", [eng_abandon, eng_burst, lambda ctx: eng_create_delete_race(ctx), lambda ctx: eng_racestress(ctx), eng_cs],
+reg("C16", [eng_abandon, eng_burst, lambda ctx: eng_create_delete_race(ctx), lambda ctx: eng_racestress(ctx), eng_cs,
+            lambda ctx: eng_abandoned_delete_during_create(ctx)],
     rule="abandon: the library-level future of CreateSubscription / DeleteSubscription / Publish / Pull / Acknowledge / "
          "DeleteTopic polled k times (y scheduler yields in between) and dropped, with the target actor's mailbox empty "
          "or saturated (0/16/24 pending requests); then Get/List/STATS/Publish/Pull probes, expiry, and re-creation of "
@@ -1552,7 +1614,8 @@ reg("C16", [eng_abandon, eng_burst, lambda ctx: eng_create_delete_race(ctx), lam
                "(deltio_suspension_points_as_modelled), not proved semantically.",
     generated=[("lock-discipline", lockgate.lock_gate)])
 
-reg("C07", [eng_burst, eng_abandon, eng_pull_limit, eng_pushstress, eng_deletestress, eng_nsstress, eng_grpcstress],
+reg("C07", [eng_burst, eng_abandon, eng_pull_limit, eng_pushstress, eng_deletestress, eng_nsstress, eng_grpcstress,
+            eng_stream_flood],
     rule="burst: 17-70 calls (Get/Pull/Ack/List, one or two DeleteSubscription, one or two Publish, sometimes DeleteTopic) "
          "started without letting the runtime settle, seeded select!/scheduling order; after settling every call must "
          "have an answer and the server must still answer Get/Publish/Pull/List (mon_no_hang on every case; the harness "
@@ -1660,10 +1723,15 @@ def eng_push(ctx):
     # endpoints that never answer: each such pass costs 20 s of real time (the cases run in parallel)
     cases = gen.push_hang_cases() if not ctx.thorough else \
         gen.push_hang_cases() + gen.push_cases(ctx.seed + 1, 32, with_hang=True, prefix="ph")
-    return ctx.seq("push-hang", cases, relevant={"ROUND", "REG", "STATS", "PULL"}, triggers={"ROUND"}, monitor=M.mon_push)
+    out = ctx.seq("push-hang", cases, relevant={"ROUND", "REG", "STATS", "PULL"}, triggers={"ROUND"}, monitor=M.mon_push)
+    if out:
+        return out
+    # an endpoint that takes 11 s to accept, within a 60 s ack deadline (11 s of real time; the model has no clock for
+    # an answer, so the case is judged on the endpoint's own record)
+    return ctx.seq("push-slow", gen.push_slow_cases(), triggers={"ROUND"}, monitor=M.mon_push, always_monitor=True, model_free=True)
 
 
-reg("C14", [eng_push, eng_control_random(None, {"CS"})],
+reg("C14", [eng_push, eng_control_random(None, {"CS"}), lambda ctx: eng_registry_enum(ctx)],
     rule="push: real reqwest dispatch against a scripted local HTTP endpoint; every outcome sequence up to length 3 "
          "over {200,204,500,404,reset} first, then random longer ones over {200,201,202,204,301,400,404,500,503,reset}; "
          "1-3 messages with attributes and binary data, 2-4 passes, a second push subscription, a pull subscription and a "
